@@ -417,3 +417,5 @@ def run(tier, seed):
 
 
 RULE += (' Runs of all five algorithms with the declared bounds narrowed in place after the algorithm object exists, and with a fixed script of transient failures (calls 1, 2, 5) whose replacements are drawn with extreme answers on offer (numpy.random.normal as bound by artap.utils is owned: base, mean-4sigma, mean+4sigma).')
+
+RULE += (' Beyond small: generator counts 1000, 1025 (random) and 513, 1025 (LHS, Halton).')
